@@ -132,6 +132,42 @@ def update_cases():
     return out
 
 
+# further kinds of assignment target (each has its own load/store path in the compiler) x every compound / update form
+TARGETS2 = {
+    "cell-owner": ("x", "(function () { var x = {A}; var g = function () { return x }; var r = ({E}); __out(r); return [x, g()] })()"),
+    "param": ("x", "(function (x) { var r = ({E}); __out(r); return x })({A})"),
+    "param-captured": ("x", "(function (x) { var g = function () { return x }; var r = ({E}); __out(r); return [x, g()] })({A})"),
+    "closure-2-levels": ("x", "(function () { var x = {A}; return (function () { return (function () { var r = ({E}); __out(r); return x })() })() })()"),
+    "arrow-captured": ("x", "(function () { var x = {A}; var f = () => { var r = ({E}); __out(r) }; f(); return x })()"),
+    "catch-variable": ("x", "var res; try { throw {A} } catch (x) { var r = ({E}); __out(r); res = x } res"),
+    "catch-variable-captured": ("x", "var res; try { throw {A} } catch (x) { var g = function () { return x }; var r = ({E}); __out(r); res = [x, g()] } res"),
+    "for-variable": ("x", "for (var x = {A}, n = 0; n < 1; n++) { var r = ({E}); __out(r) } x"),
+    "arguments-element": ("arguments[0]", "(function () { var r = ({E}); __out(r); return arguments[0] })({A})"),
+    "typed-array-element": ("t[0]", "var t = new Float64Array(1); t[0] = {A}; var r = ({E}); __out(r); t[0]"),
+    "int-typed-array-element": ("t[0]", "var t = new Int8Array(1); t[0] = {A}; var r = ({E}); __out(r); t[0]"),
+    "nested-member": ("o.q.p", "var o = {q: {p: {A}}}; var r = ({E}); __out(r); o.q.p"),
+    "this-member": ("this.p", "var o = {p: {A}, m: function () { var r = ({E}); __out(r) }}; o.m(); o.p"),
+    "accessor": ("o.p", "var store = {A}; var o = {get p() { __out('get'); return store }, set p(v) { __out('set'); store = v }}; var r = ({E}); __out(r); store"),
+    "inherited-member": ("o.p", "var proto = {p: {A}}; var o = Object.create(proto); var r = ({E}); __out(r); [o.p, proto.p]"),
+    "call-result-member": ("f().p", "var o = {p: {A}}, calls = 0; function f() { calls++; return o } var r = ({E}); __out(r); [o.p, calls]"),
+    "computed-side-effect": ("o[k()]", "var o = {p: {A}}, calls = 0; function k() { calls++; return 'p' } var r = ({E}); __out(r); [o.p, calls]"),
+}
+TARGET2_VALUES = ['"5"', "true", "null", "undefined", "1.5", '"a"', "NaN", "-0", "9007199254740992", "7",
+                  "({valueOf: function () { return 4 }})", "[3]"]
+
+
+def target2_cases():
+    out = []
+    for tname, (t, tmpl) in TARGETS2.items():
+        forms = [("%s %s %s" % (t, op, b)) for op in ASSIGNOPS + ["="] for b in ("2", '"1"', "undefined")]
+        forms += ["++" + t, t + "++", "--" + t, t + "--", "-" + t, "typeof " + t, "(" + t + ", 1)"]
+        for e in forms:
+            for a in TARGET2_VALUES:
+                src = tmpl.replace("{A}", a).replace("{E}", e)
+                out.append(("T2|%s|%s|%s" % (tname, e, a), {"src": src, "tl": 50, "target": tname, "expr": e}))
+    return out
+
+
 def tree_cases(shape):
     out = []
     for o1 in TREEOPS:
@@ -200,6 +236,13 @@ def core_spaces():
                "12 compound assignments and plain = on 6 target forms (global, local, captured, o.p, a[i], o[k]); "
                "logs the value of the assignment expression and returns the target afterwards", "6 x 13 x 24 x 16"),
         _space("c06_update", lambda: update_cases(), "++x x++ --x x-- on 6 target forms over the full grid", "6 x 4 x grid"),
+        _space("c06_targets2_compound", target2_cases,
+               "%d further target kinds (variable captured by an inner function and used by its owner, parameter, two closure levels, "
+               "arrow, catch variable, for variable, implicit global, arguments element, typed-array elements, nested / this / "
+               "inherited member, accessor pair, call-result and side-effecting computed key) x {13 assignment operators x 3 right "
+               "operands, 4 update forms, unary minus, typeof, comma} x %d initial values: value of the expression, final value of the "
+               "target, and how often sub-expressions ran" % (len(TARGETS2), len(TARGET2_VALUES)),
+               "%d x 46 x %d" % (len(TARGETS2), len(TARGET2_VALUES))),
     ]
 
 
@@ -230,6 +273,15 @@ def spaces(tier, seed, all_strata=False):
 
 def signature(sp, cid, payload, exp, obs):
     src = payload["src"] if isinstance(payload, dict) else cid
+    if sp.name.startswith("c06_targets2"):
+        e = payload["expr"]
+        op = "?"
+        for a in sorted(ASSIGNOPS + ["++", "--", "typeof", "="], key=len, reverse=True):
+            if a in e:
+                op = a
+                break
+        kind = mismatch_kind(exp, obs)
+        return "target2|%s|%s|%s" % (payload["target"], op, kind), "%s on a %s target: %s" % (op, payload["target"], kind)
     form = sp.name.split("_")[1].rstrip("0123456789")
     op = "?"
     if form in ("binary", "tree"):
